@@ -1,14 +1,195 @@
 /-
-Props/C04.lean — property C04 (placeholder while the proofs are being developed; see Proofs/NormalEq*.lean).
--/
-import Model.NormalEq
+Props/C04.lean — property C04: the data vector and the curvature matrix of an imaging inversion equal the
+normal equations `Bᵀ N⁻¹ d`, `Bᵀ N⁻¹ B (+ ε on unregularised diagonal entries)` in the mapping-matrix
+formalism and in the w-tilde formalism, for every mask, every (square or not, signed or not) PSF, every
+noise map that is positive on the mask, every list of linear objects.
 
-open Model
+All theorems are about the `Impl` layer of Model/NormalEq.lean (the loop transliterations the driver
+executes against the Python), over an arbitrary linearly ordered field `α`; sizes, masks, kernels and values
+are universally quantified.  Notation: `idx = unmaskedPixels m` (= `native_index_for_slim_index`),
+`N = idx.length`, `P[d,a] = Spec.pMat K idx d a = K[idx d − idx a + half]`, `σ = noise` (slim).
+The modelled code is the repaired one (fixes D1, D2, D3 of DESIGN §6).
+-/
+import Proofs.NormalEqAgree
+
+open Model Model.Spec
 
 namespace C04
 
-/-- `Mat.zeros` has the requested shape (first building block; replaced by the clause theorems). -/
-theorem zeros_shape (r c : Nat) : (Mat.zeros (α := Rat) r c).r = r ∧ (Mat.zeros (α := Rat) r c).c = c :=
-  ⟨rfl, rfl⟩
+variable {α : Type} [Field α] [LinearOrder α] [IsStrictOrderedRing α]
+
+/-! ## (a) mapping formalism = normal equations -/
+
+/-- (a1) `data_vector_via_blurred_mapping_matrix_from`: `D[p] = Σ_d d_d · B[d,p] / σ_d²`, length = #columns -/
+theorem a_data_vector_mapping (B : Mat α) (image noise : List α) :
+    (Impl.dataVectorMapping B image noise).size = B.c ∧
+    ∀ p, p < B.c → (Impl.dataVectorMapping B image noise).get p
+      = sumRange B.r fun d => vget image d * B.get d p / (vget noise d * vget noise d) :=
+  dataVectorMapping_spec B image noise
+
+/-- (a2) `curvature_matrix_via_mapping_matrix_from`: `F[i,j] = Σ_d (B[d,i]/σ_d)(B[d,j]/σ_d)` plus exactly
+    `value` on the diagonal entries listed (once) in `no_regularization_index_list`, nothing elsewhere. -/
+theorem a_curvature_mapping (B : Mat α) (noise : List α) (noReg : List Nat) (hnd : noReg.Nodup)
+    (value : α) :
+    (Impl.curvatureMapping B noise true noReg value).r = B.c ∧
+    (Impl.curvatureMapping B noise true noReg value).c = B.c ∧
+    ∀ i j, i < B.c → j < B.c → (Impl.curvatureMapping B noise true noReg value).get i j
+      = (sumRange B.r fun d => B.get d i / vget noise d * (B.get d j / vget noise d))
+        + if i = j ∧ i ∈ noReg then value else 0 := by
+  obtain ⟨h1, h2, h3⟩ := curvatureMapping_spec B noise true noReg value
+  refine ⟨h1, h2, fun i j hi hj => ?_⟩
+  rw [h3 i j hi hj, if_pos rfl, diag_term_nodup noReg hnd value i j]
+
+/-- (a3) the curvature matrix is symmetric -/
+theorem a_curvature_symmetric (B : Mat α) (noise : List α) (addDiag : Bool) (noReg : List Nat)
+    (value : α) (i j : Nat) (hi : i < B.c) (hj : j < B.c) :
+    (Impl.curvatureMapping B noise addDiag noReg value).get i j
+      = (Impl.curvatureMapping B noise addDiag noReg value).get j i := by
+  obtain ⟨_, _, h3⟩ := curvatureMapping_spec B noise addDiag noReg value
+  rw [h3 i j hi hj, h3 j i hj hi]
+  congr 1
+  · apply sumRange_congr; intro d _; ring
+  · congr 1
+    apply sum_map_congr
+    intro x _
+    by_cases h : i = x ∧ j = x
+    · simp [h.1, h.2]
+    · have : ¬ (j = x ∧ i = x) := fun h' => h ⟨h'.2, h'.1⟩
+      simp [h, this]
+
+/-- (a4) what `B` is: `Convolver.convolve_mapping_matrix` returns `P · M` — column by column the PSF
+    blurring of the mapping matrix, for mapping matrices of any sign. -/
+theorem a_operated_mapping_matrix (m : Mask) (K : Kernel α) (M : Mat α)
+    (hr : M.r = (unmaskedPixels m).length) :
+    (Impl.convolveMatrix (Impl.frames m K) M).r = M.r ∧
+    (Impl.convolveMatrix (Impl.frames m K) M).c = M.c ∧
+    ∀ t p, t < M.r → p < M.c → (Impl.convolveMatrix (Impl.frames m K) M).get t p
+      = sumRange (unmaskedPixels m).length fun a => pMat K (unmaskedPixels m) t a * M.get a p :=
+  ⟨(convolveMatrix_spec _ M).1, (convolveMatrix_spec _ M).2.1,
+    fun t p ht hp => operated_eq_blurred m K M hr t p ht hp⟩
+
+/-! ## (b) the w-tilde data term -/
+
+/-- (b1) `w_tilde_data_imaging_from`: `w̃_d[a] = Σ_d K[d−a+half] · d_d/σ_d²`, for every kernel shape -/
+theorem b_w_tilde_data (m : Mask) (K : Kernel α) (data noise : List α) (hf : Footprint m K)
+    (a : Nat) (ha : a < (unmaskedPixels m).length) :
+    vget (Impl.wTildeData m.w (Impl.nativeFrom m data 0) (Impl.nativeFrom m noise 0) K
+        (unmaskedPixels m)) a
+      = sumRange (unmaskedPixels m).length fun d =>
+          pMat K (unmaskedPixels m) d a * (vget data d / (vget noise d * vget noise d)) :=
+  wTildeData_spec m K data noise hf a ha
+
+/-- (b2) `data_vector_via_w_tilde_data_imaging_from` through a unique-mapping table that encodes `M`
+    equals the mapping-formalism data vector of `B = P·M`. -/
+theorem b_data_vector_agrees (m : Mask) (K : Kernel α) (data noise : List α) (hf : Footprint m K)
+    (hpos : ∀ k, k < (unmaskedPixels m).length → 0 < vget noise k)
+    (U : Rows α) (M : Mat α) (hU : Encodes U M) (hr : M.r = (unmaskedPixels m).length)
+    (p : Nat) (hp : p < M.c) :
+    (Impl.dataVectorWTilde
+        (Impl.wTildeData m.w (Impl.nativeFrom m data 0) (Impl.nativeFrom m noise 0) K
+          (unmaskedPixels m)) U M.c).get p
+      = (Impl.dataVectorMapping (Impl.convolveMatrix (Impl.frames m K) M) data noise).get p :=
+  dataVector_agree m K data noise hf hpos U M hU hr p hp
+
+/-! ## (c) the noise-weighted PSF overlap -/
+
+/-- (c1) `w_tilde_curvature_value_from(a, b) = Σ_d P[d,a] P[d,b] / σ_d² = (Pᵀ N⁻¹ P)[a,b]`
+    (square or non-square kernel, any signs; the `value > 0` test on the noise image selects exactly the
+    unmasked pixels). -/
+theorem c_w_tilde_value (m : Mask) (K : Kernel α) (noise : List α) (hf : Footprint m K)
+    (hpos : ∀ k, k < (unmaskedPixels m).length → 0 < vget noise k)
+    (a b : Nat) (ha : a < (unmaskedPixels m).length) (hb : b < (unmaskedPixels m).length) :
+    Impl.wTildeCurvatureValue m.w (Impl.nativeFrom m noise 0) K
+        ((unmaskedPixels m).getD a (0, 0)) ((unmaskedPixels m).getD b (0, 0))
+      = sumRange (unmaskedPixels m).length fun d =>
+          pMat K (unmaskedPixels m) d a * pMat K (unmaskedPixels m) d b
+            * (1 / vget noise d * (1 / vget noise d)) :=
+  wTildeCurvatureValue_spec m K noise hf hpos a b ha hb
+
+/-- (c2) `w_tilde_curvature_preload_imaging_from`: the rows encode a matrix `Ũ` with `Ũ + Ũᵀ = Pᵀ N⁻¹ P`
+    (upper triangle, diagonal halved, zeros omitted — negative overlaps kept). -/
+theorem c_preload_represents_w_tilde (m : Mask) (K : Kernel α) (noise : List α) (hf : Footprint m K)
+    (hpos : ∀ k, k < (unmaskedPixels m).length → 0 < vget noise k)
+    (a b : Nat) (ha : a < (unmaskedPixels m).length) (hb : b < (unmaskedPixels m).length) :
+    rowsMat (Impl.wTildePreload m.w (Impl.nativeFrom m noise 0) K (unmaskedPixels m)) a b
+      + rowsMat (Impl.wTildePreload m.w (Impl.nativeFrom m noise 0) K (unmaskedPixels m)) b a
+      = wTilde K (unmaskedPixels m) noise a b :=
+  wTildePreload_represents m K noise hf hpos a b ha hb
+
+/-! ## (d) curvature matrix from a preload -/
+
+/-- (d1) `curvature_matrix_via_w_tilde_curvature_preload_imaging_from` = `Mᵀ W M` for ANY preload rows
+    that encode `Ũ` with `Ũ + Ũᵀ = W` (no assumption on where `W` comes from). -/
+theorem d_curvature_from_preload (pre U : Rows α) (n : Nat) (W : Nat → Nat → α)
+    (hlen : pre.length = U.length)
+    (hW : ∀ a b, a < U.length → b < U.length → rowsMat pre a b + rowsMat pre b a = W a b) :
+    (Impl.curvatureFromPreload pre U n).r = n ∧ (Impl.curvatureFromPreload pre U n).c = n ∧
+    ∀ p0 p1, p0 < n → p1 < n → (Impl.curvatureFromPreload pre U n).get p0 p1
+      = sumRange U.length fun a => sumRange U.length fun b =>
+          rowsMat U a p0 * W a b * rowsMat U b p1 :=
+  curvatureFromPreload_spec pre U n W hlen hW
+
+/-- (d2) the mapper–mapper off-diagonal block `off_diag_0 + off_diag_1.T` = `M₀ᵀ W M₁` -/
+theorem d_offdiag_block (pre U0 U1 : Rows α) (n0 n1 : Nat) (W : Nat → Nat → α)
+    (hlen0 : pre.length = U0.length) (hlen1 : pre.length = U1.length)
+    (hW : ∀ a b, a < pre.length → b < pre.length → rowsMat pre a b + rowsMat pre b a = W a b)
+    (p0 p1 : Nat) (hp0 : p0 < n0) (hp1 : p1 < n1) :
+    (Mat.plus (Impl.offDiagPreload pre U0 n0 U1 n1)
+        (Mat.transpose (Impl.offDiagPreload pre U1 n1 U0 n0))).get p0 p1
+      = sumRange pre.length fun a => sumRange pre.length fun b =>
+          rowsMat U0 a p0 * W a b * rowsMat U1 b p1 :=
+  offDiagBlock_spec pre U0 U1 n0 n1 W hlen0 hlen1 hW p0 p1 hp0 hp1
+
+/-- (d3) the mapper–function-list block: with `P = frameMat frames`, the triple loop returns
+    `(P · M)ᵀ · curvature_weights`. -/
+theorem d_mapper_func_block (U : Rows α) (n : Nat) (cw : Mat α) (fr : Rows α) :
+    (Impl.offDiagMapperFunc U n cw fr).r = n ∧ (Impl.offDiagMapperFunc U n cw fr).c = cw.c ∧
+    ∀ p l, p < n → l < cw.c → (Impl.offDiagMapperFunc U n cw fr).get p l
+      = sumRange cw.r fun t =>
+          (sumRange U.length fun d0 => frameMat fr t d0 * rowsMat U d0 p) * cw.get t l :=
+  offDiagMapperFunc_spec U n cw fr
+
+/-! ## (e) the two formalisms agree, block by block -/
+
+/-- (e1) diagonal block of a mapper: w-tilde curvature = `Bᵀ N⁻¹ B` with `B = P·M` -/
+theorem e_mapper_block_agrees (m : Mask) (K : Kernel α) (noise : List α) (hf : Footprint m K)
+    (hpos : ∀ k, k < (unmaskedPixels m).length → 0 < vget noise k)
+    (U : Rows α) (M : Mat α) (hU : Encodes U M) (hr : M.r = (unmaskedPixels m).length)
+    (p0 p1 : Nat) (hp0 : p0 < M.c) (hp1 : p1 < M.c) :
+    (Impl.curvatureFromPreload
+        (Impl.wTildePreload m.w (Impl.nativeFrom m noise 0) K (unmaskedPixels m)) U M.c).get p0 p1
+      = sumRange (unmaskedPixels m).length fun d =>
+          (Impl.convolveMatrix (Impl.frames m K) M).get d p0 / vget noise d
+            * ((Impl.convolveMatrix (Impl.frames m K) M).get d p1 / vget noise d) :=
+  curvatureFromPreload_agree m K noise hf hpos U M hU hr p0 p1 hp0 hp1
+
+/-- (e2) off-diagonal block of two mappers -/
+theorem e_offdiag_block_agrees (m : Mask) (K : Kernel α) (noise : List α) (hf : Footprint m K)
+    (hpos : ∀ k, k < (unmaskedPixels m).length → 0 < vget noise k)
+    (U0 U1 : Rows α) (M0 M1 : Mat α) (hU0 : Encodes U0 M0) (hU1 : Encodes U1 M1)
+    (hr0 : M0.r = (unmaskedPixels m).length) (hr1 : M1.r = (unmaskedPixels m).length)
+    (p0 p1 : Nat) (hp0 : p0 < M0.c) (hp1 : p1 < M1.c) :
+    (Mat.plus
+        (Impl.offDiagPreload
+          (Impl.wTildePreload m.w (Impl.nativeFrom m noise 0) K (unmaskedPixels m)) U0 M0.c U1 M1.c)
+        (Mat.transpose (Impl.offDiagPreload
+          (Impl.wTildePreload m.w (Impl.nativeFrom m noise 0) K (unmaskedPixels m))
+          U1 M1.c U0 M0.c))).get p0 p1
+      = sumRange (unmaskedPixels m).length fun d =>
+          (Impl.convolveMatrix (Impl.frames m K) M0).get d p0 / vget noise d
+            * ((Impl.convolveMatrix (Impl.frames m K) M1).get d p1 / vget noise d) :=
+  offDiagBlock_agree m K noise hf hpos U0 U1 M0 M1 hU0 hU1 hr0 hr1 p0 p1 hp0 hp1
+
+/-- (e3) mapper–function-list block -/
+theorem e_mapper_func_block_agrees (m : Mask) (K : Kernel α) (noise : List α) (U : Rows α)
+    (M Bf : Mat α) (hU : Encodes U M) (hr : M.r = (unmaskedPixels m).length)
+    (hrf : Bf.r = (unmaskedPixels m).length) (p l : Nat) (hp : p < M.c) (hl : l < Bf.c) :
+    (Impl.offDiagMapperFunc U M.c
+        (Mat.ofFn Bf.r Bf.c fun d l => Bf.get d l / (vget noise d * vget noise d))
+        (Impl.frames m K)).get p l
+      = sumRange (unmaskedPixels m).length fun d =>
+          (Impl.convolveMatrix (Impl.frames m K) M).get d p / vget noise d
+            * (Bf.get d l / vget noise d) :=
+  mapperFuncBlock_agree m K noise U M Bf hU hr hrf p l hp hl
 
 end C04
